@@ -9,6 +9,8 @@
 //	(everything else must not be mocked)
 //
 // usage: initifaces <dir> <package pattern>     -> one JSON object on stdout
+//
+//	initifaces <dir> <pattern> <pattern> ...  -> one JSON object, package path -> that object
 package main
 
 import (
@@ -17,26 +19,46 @@ import (
 	"go/ast"
 	"go/types"
 	"os"
+	"path/filepath"
 	"sort"
 
 	"golang.org/x/tools/go/packages"
 )
 
 func main() {
-	if len(os.Args) != 3 {
-		fmt.Fprintln(os.Stderr, "usage: initifaces <dir> <pattern>")
+	if len(os.Args) < 3 {
+		fmt.Fprintln(os.Stderr, "usage: initifaces <dir> <pattern> [<pattern> ...]")
 		os.Exit(2)
 	}
 	cfg := &packages.Config{Dir: os.Args[1], Mode: packages.NeedName | packages.NeedTypes | packages.NeedSyntax | packages.NeedTypesInfo | packages.NeedFiles | packages.NeedImports | packages.NeedDeps}
-	pkgs, err := packages.Load(cfg, os.Args[2])
-	if err != nil || len(pkgs) != 1 || len(pkgs[0].Errors) > 0 {
+	pats := os.Args[2:]
+	pkgs, err := packages.Load(cfg, pats...)
+	if err != nil || len(pkgs) != len(pats) {
 		fmt.Fprintln(os.Stderr, "load failed:", err, len(pkgs))
-		if len(pkgs) > 0 {
-			fmt.Fprintln(os.Stderr, pkgs[0].Errors)
-		}
 		os.Exit(2)
 	}
-	pkg := pkgs[0]
+	for _, p := range pkgs {
+		if len(p.Errors) > 0 {
+			fmt.Fprintln(os.Stderr, "load failed:", p.PkgPath, p.Errors)
+			os.Exit(2)
+		}
+	}
+	if len(pats) == 1 {
+		b, _ := json.Marshal(classify(pkgs[0]))
+		fmt.Println(string(b))
+		return
+	}
+	// several packages: one object, package path -> classification (GoFiles / IgnoredFiles: base names, what the
+	// toolchain compiles into the package on this host and what it leaves out)
+	all := map[string]map[string][]string{}
+	for _, p := range pkgs {
+		all[p.PkgPath] = classify(p)
+	}
+	b, _ := json.Marshal(all)
+	fmt.Println(string(b))
+}
+
+func classify(pkg *packages.Package) map[string][]string {
 	literal := map[string]bool{}
 	for _, f := range pkg.Syntax {
 		for _, d := range f.Decls {
@@ -53,7 +75,7 @@ func main() {
 			}
 		}
 	}
-	out := map[string][]string{"required": {}, "optional": {}, "other": {}}
+	out := map[string][]string{"required": {}, "optional": {}, "other": {}, "gofiles": {}, "ignored": {}}
 	scope := pkg.Types.Scope()
 	for _, name := range scope.Names() {
 		tn, ok := scope.Lookup(name).(*types.TypeName)
@@ -70,10 +92,15 @@ func main() {
 			out["required"] = append(out["required"], name)
 		}
 	}
+	for _, f := range pkg.GoFiles {
+		out["gofiles"] = append(out["gofiles"], filepath.Base(f))
+	}
+	for _, f := range pkg.IgnoredFiles {
+		out["ignored"] = append(out["ignored"], filepath.Base(f))
+	}
 	for _, v := range out {
 		sort.Strings(v)
 	}
 	out["package"] = []string{pkg.PkgPath}
-	b, _ := json.Marshal(out)
-	fmt.Println(string(b))
+	return out
 }
